@@ -431,6 +431,16 @@ func (fc *FontConfigurationGotext) wrapWordBreak(text []rune, style *TextStyle, 
 		outputs[i] = output
 	}
 
+	if len(outputs) == 0 { // nothing to shape (no run for this text)
+		return FirstLine{
+			Layout:   layoutGotext{},
+			Length:   0,
+			ResumeAt: -1,
+			Width:    0, Height: 0, Baseline: 0,
+			FirstLineRTL: false,
+		}
+	}
+
 	if style.LetterSpacing != 0 || style.WordSpacing != 0 {
 		ws, ls := floatToFixed(style.WordSpacing), floatToFixed(style.LetterSpacing)
 		shaping.AddSpacing(outputs, text, ws, ls)
